@@ -29,6 +29,7 @@
 From Ark Require Import Model.Base Model.Mask Model.Pool Model.Util Model.World Model.Run.
 From Ark Require Import Proofs.WF Proofs.StorageA Proofs.ResetShrinkProofs Proofs.ObsSpec Proofs.Rel2Defs Proofs.Rel2Maint Proofs.StorageD Proofs.Rel2Hist Properties.Common.
 From Ark Require Proofs.ObsProofs.
+From Ark Require Import Proofs.Rel2HistQ.
 
 Theorem C16_reset_empty : forall s, St s -> is_locked s = false ->
   (forall aid a, nth_error (w_archs s) aid = Some a -> a_tables a <> []) ->
@@ -95,7 +96,23 @@ Definition C16_reset_succeeds_relation_histories := reachable_reset_succeeds.
 Definition C16_reset_conditions_AB_are_invariants := inv4_reset_empty.
 Definition C16_archetypes_always_have_their_table := (reachable_archs_tabled, reachable_inv2T).
 
-Definition C16_all := (C16_reset_succeeds_relation_histories, C16_reset_conditions_AB_are_invariants, C16_archetypes_always_have_their_table,
+
+(** ** Over histories with filters, registrations and queries (Rel2HistQ): in every UNLOCKED reachable state Reset
+    succeeds and yields an empty, unlocked world satisfying the invariant with the registry kept; in every LOCKED
+    reachable state it is rejected without effect. *)
+Theorem C16_reset_succeeds_histories_with_queries : forall c lines,
+  cfg_ok2 c -> Forall (rel_q_line (sc_kinds c)) lines -> length lines + 4 < Nat.pow 2 31 ->
+  is_locked (Properties.Common.exec c lines) = false ->
+  exists s', step_op (sc_debug c) OReset (Properties.Common.exec c lines) = Ok [] s' /\ St2 s' /\ r2d_KeysLive s' /\
+    is_locked s' = false /\ (forall e, live s' e = false) /\ w_reg s' = w_reg (Properties.Common.exec c lines).
+Proof. exact reachable_unlocked_reset_succeeds. Qed.
+
+Theorem C16_reset_rejected_when_locked : forall c lines,
+  Forall (rel_q_line (sc_kinds c)) lines -> is_locked (Properties.Common.exec c lines) = true ->
+  exists er, step_op (sc_debug c) OReset (Properties.Common.exec c lines) = Err er (Properties.Common.exec c lines).
+Proof. exact reachable_locked_reset_rejected. Qed.
+
+Definition C16_all := (C16_reset_succeeds_histories_with_queries, C16_reset_rejected_when_locked, C16_reset_succeeds_relation_histories, C16_reset_conditions_AB_are_invariants, C16_archetypes_always_have_their_table,
   C16_reset_relation_worlds, C16_relation_example, C16_reset_empty, C16_reset_locked_rejected, C16_reset_needs_every_archetype_to_have_a_table,
   C16_reset_clears_observers).
 Print Assumptions C16_all.
